@@ -19,7 +19,7 @@ ASSUMPTIONS = ["thresholds: |z| <= 6.5 for means / covariances / proportions (fa
                "valid proportions are dyadic so that their floating-point sum is exactly 1 (the code tests equality)"]
 EVAL_COUNTER = "calls"
 REQUIRED = {"quick": {"calls": 60, "gmm_calls": 25, "gmm_1d_calls": 5, "student_calls": 8, "gstm_calls": 6, "celeux_one_calls": 6,
-                      "celeux_two_calls": 6, "z_tests": 1500, "ks_tests": 30, "invalid_rejected": 12, "indefinite_covariances_tried": 40, "determinism_checks": 60, "gmm_other_unit_calls": 3, "gmm_tiny_unit_calls": 2},
+                      "celeux_two_calls": 6, "z_tests": 1500, "ks_tests": 30, "invalid_rejected": 12, "indefinite_covariances_tried": 40, "determinism_checks": 60, "gmm_other_unit_calls": 3, "gmm_tiny_unit_calls": 2, "rare_component_calls": 100, "rare_calls_with_a_skipped_inner_component": 20},
             "thorough": {"calls": 500, "z_tests": 12000}}
 SHARD_TIMEOUT = {"quick": 1200, "thorough": 7000}
 ZMAX = 6.5
@@ -30,6 +30,7 @@ def cases(tier, seed):
     n = 80 if tier == "quick" else 640
     out = [{"kind": "call", "seed": seed, "i": i, "tier": tier} for i in range(n)]
     out += [{"kind": "invalid", "seed": seed}]
+    out += [{"kind": "rare", "seed": seed, "i": i} for i in range(8 if tier == "quick" else 60)]
     return out
 
 
@@ -103,7 +104,54 @@ def ks_marginals(ctx, Z, df, tag, mech):
             return
 
 
+def run_rare(case, ctx):
+    """Small draws from mixtures with rare components and far-apart means: some component gets no sample at all (a rare
+    one, or more components than samples).  Every sample must still come from the component its label names: with means
+    100 standard deviations apart it lies within 9 of them from the mean of its own label and nowhere near another one."""
+    from gemclus.data import draw_gmm
+    rng = gen.rng_for(case["seed"], ID, "rare", case["i"])
+    for rep in range(25):
+        d = int(rng.integers(1, 4))
+        K = int(rng.integers(3, 7))
+        means = np.array([[100.0 * k * (1 if j == 0 else (-1) ** k) for j in range(d)] for k in range(K)])
+        rare = sorted(int(x) for x in rng.choice(K, size=int(rng.integers(1, K - 1)), replace=False))
+        pv = np.ones(K)
+        pv[rare] = 0.0
+        pv = pv / pv.sum() * (1 - len(rare) / 1024.0)
+        pv[rare] = 1 / 1024.0
+        pv[[k for k in range(K) if k not in rare][0]] += 1.0 - pv.sum()
+        if float(pv.sum()) != 1.0:
+            continue
+        n = int(rng.integers(1, 60))
+        covs = [[1.0]] * K if d == 1 else [np.eye(d) for _ in range(K)]
+        seed = int(rng.integers(0, 10 ** 6))
+        ctx.case = dict(case, rep=rep, d=d, K=K, n=n, rare=rare, rs=seed)
+        try:
+            X, y = draw_gmm(n, means.tolist(), covs, pv.tolist(), random_state=seed)
+        except Exception as e:
+            ctx.violation("shapes", f"gmm-raises-on-a-valid-mixture/{type(e).__name__}", observed={"exc": repr(e)[:200], "pvals": pv, "n": n}, expected="(X, y)")
+            continue
+        ctx.count("rare_component_calls")
+        X = np.asarray(X, dtype=float).reshape(n, -1)
+        y = np.asarray(y)
+        present = set(int(v) for v in np.unique(y))
+        if len(present) < K and any(k not in present for k in range(int(max(present)) if present else 0)):
+            ctx.count("rare_calls_with_a_skipped_inner_component")
+        if X.shape != (n, d) or y.shape != (n,) or (n and (y.min() < 0 or y.max() >= K)):
+            ctx.violation("shapes", "gmm-shape-or-label-range", observed={"X": list(X.shape), "y": list(y.shape)}, expected=[n, d])
+            continue
+        dist = np.linalg.norm(X - means[y.astype(int)], axis=1)
+        if n and float(dist.max()) > 9.0 * np.sqrt(d):
+            j = int(dist.argmax())
+            nearest = int(np.argmin(np.linalg.norm(means - X[j], axis=1)))
+            ctx.violation("statistics", "gmm/sample-not-from-the-component-of-its-label",
+                          observed={"label": int(y[j]), "sample": X[j], "mean_of_label": means[int(y[j])], "nearest_component": nearest,
+                                    "labels_present": sorted(present), "n": n, "K": K}, expected="within 9 standard deviations of its own component's mean")
+
+
 def run_case(case, ctx, st):
+    if case.get("kind") == "rare":
+        return run_rare(case, ctx)
     from gemclus.data import draw_gmm, multivariate_student_t, gstm, celeux_one, celeux_two
     if case["kind"] == "invalid":
         eye = np.eye(2)
